@@ -425,6 +425,12 @@ def run_check(mod, tier, seed, replay=None):
             continue
         t_impl = time.time()
         outs = run_impl_parallel(modname, suite, cases)
+        # a case that timed out under load gets one more, sequential, attempt before it counts
+        retry = [i for i, o in enumerate(outs) if isinstance(o, dict) and o.get("harness_error") == "timeout"]
+        if retry and len(retry) <= 20:
+            _winit(modname, suite.name)
+            for i in retry:
+                outs[i] = _wrun(cases[i])
         t_impl = time.time() - t_impl
         pairs = []
         hist = {}
@@ -444,7 +450,11 @@ def run_check(mod, tier, seed, replay=None):
             for f in suite.oracle(c, o):
                 oracle_failures.append((suite, c, o, f))
             if suite.coq_case and pr["model_ok"]:
-                t = suite.coq_case(c, o)
+                try:
+                    t = suite.coq_case(c, o)
+                except Exception as e:   # a printer that cannot express the observation is a broken tie, not a crash
+                    harness_errors.append((suite.name, c, {"harness_error": "coq_case: %s: %s" % (type(e).__name__, e)}))
+                    t = None
                 if t is not None:
                     pairs.append((i, t))
         bad, errs = (set(), [])
